@@ -291,4 +291,45 @@ def addMissingDirectories (c : CSet) (dirTag : Nat) : CSet :=
   let missing := missing.filter (· ≠ ['/'])
   update c (missing.map fun x => mkEntry x kindDir dirTag)
 
+/-! ## object identity
+
+`contents.py` has two kinds of methods.  The in-place ones rewrite `self._dict` (`add`, `remove`, `discard`, `update`,
+the `…_update` forms, `add_missing_directories`).  The value-returning ones build a new object and leave `self` alone:
+`contentsSet(...)` in `difference` / `intersection` / `union` / `symmetric_difference`, `self.clone(empty=True)`
+followed by `update` in `change_offset` — whatever the arguments are, in particular when nothing has to be changed
+(relocation onto the same prefix, empty argument).  A run over several objects is modelled on a heap: the list of the
+objects created so far; a new object gets the next index. -/
+
+/-- the objects created so far, by creation index -/
+abbrev Heap := List CSet
+
+/-- one method call in a run over several objects -/
+inductive Step where
+  /-- an in-place method of object `i`; `f` = what it makes of `self._dict` -/
+  | inPlace (i : Nat) (f : CSet → CSet)
+  /-- a value-returning method of object `i`; its result (`none` = it raised) is a new object -/
+  | fresh (i : Nat) (f : CSet → Option CSet)
+
+/-- a call on an index that does not exist, or a value-returning call that raises, leaves the heap alone -/
+def Heap.step (h : Heap) : Step → Heap
+  | .inPlace i f =>
+    match h[i]? with
+    | some c => h.set i (f c)
+    | none => h
+  | .fresh i f =>
+    match h[i]? with
+    | some c => (match f c with | some r => h ++ [r] | none => h)
+    | none => h
+
+/-- a sequence of calls -/
+def Heap.run (h : Heap) (l : List Step) : Heap := l.foldl Heap.step h
+
+/-- the edit a call makes to object `j`: only an in-place method *of that object* makes one -/
+def Step.editOf (j : Nat) : Step → Option (CSet → CSet)
+  | .inPlace i f => if i = j then some f else none
+  | .fresh _ _ => none
+
+/-- `obj.change_offset(old, new)` as a call on object `i` -/
+def Step.relocate (i : Nat) (old new : Path) : Step := .fresh i fun c => changeOffset c old new
+
 end Pkgcore.C22
